@@ -1,5 +1,5 @@
 import TmVerif.Model.Proto
-import TmVerif.Model.DriverC25
+import TmVerif.Model.Drivers
 
 /-! Line-protocol driver `tmv`: reads one case per line on stdin (`<prop> <op> <args…>`),
 answers one line per case. Imports models only (core Lean; no Mathlib) so it links as an exe. -/
@@ -10,10 +10,7 @@ def dispatch (line : String) : String :=
   match toks with
   | [] => "bad-op"
   | p :: rest =>
-    let r : Option String :=
-      if p == "C25" then IntSet.handle rest
-      else none
-    match r with
+    match dispatchProp p rest with
     | some s => s
     | none => "bad-op"
 
